@@ -19,3 +19,4 @@ pub mod c20;
 pub mod c18;
 pub mod c04;
 pub mod c16;
+pub mod c19;
